@@ -6,6 +6,8 @@
   IEEE doubles.
 * int(x) on a symbolic float: likewise realised by stock CrossHair; routed to
   the symbolic ``__int__`` (truncation toward zero).
+* math.isclose: a C function (arguments realised); replaced by its documented
+  definition (PEP 485) in Python, which CrossHair executes symbolically.
 """
 
 from __future__ import annotations
@@ -74,3 +76,27 @@ def install():
     mk("floor", r_floor, z3.RTN)
     mk("ceil", r_ceil, z3.RTP)
     mk("trunc", r_trunc, z3.RTZ)
+
+    native_isclose = math.isclose
+
+    def patched_isclose(a, b, *, rel_tol=1e-09, abs_tol=0.0):
+        with NoTracing():
+            symbolic = any(isinstance(x, SymbolicFloat) for x in (a, b, rel_tol, abs_tol))
+        if not symbolic:
+            with NoTracing():
+                return native_isclose(deep_realize(a), deep_realize(b), rel_tol=deep_realize(rel_tol),
+                                      abs_tol=deep_realize(abs_tol))
+        # PEP 485 (finite arguments; the harness preconditions exclude inf/nan)
+        if rel_tol < 0 or abs_tol < 0:
+            raise ValueError("tolerances must be non-negative")
+        if a == b:
+            return True
+        d = a - b
+        if d < 0:
+            d = -d
+        aa = -a if a < 0 else a
+        ab = -b if b < 0 else b
+        m = aa if aa > ab else ab
+        return d <= rel_tol * m or d <= abs_tol
+
+    xc._PATCH_REGISTRATIONS[math.isclose] = patched_isclose
